@@ -165,6 +165,7 @@ class Spy(T.Tautology):
 
 
 TAUT = Spy()
+LAST = {'clauses': None}     # number of clauses of the case being processed (for the RecursionError report)
 
 
 def fresh_interpreter():
@@ -204,6 +205,7 @@ def cmd_P(arg):
     out.append('cnf=' + show_cf(c))
     out.append('plc=' + hashlib.md5((show_core(cq1.conc) + '|' + show_core(cq2.conc)).encode()).hexdigest())
     cls, _, _ = TAUT.to_clauses(c)
+    LAST['clauses'] = len(cls)
     out.append('cls=' + show_clauses(cls))
     res = TAUT.start_resolution_algorithm(cls)
     out.append(show_resolution(res))
@@ -230,6 +232,7 @@ def cmd_stage(which, arg):
 
 def cmd_R(arg):
     cls = parse_clauses(arg.strip())
+    LAST['clauses'] = len(cls)
     TAUT.trace = None
     TAUT.build = None
     res = TAUT.start_resolution_algorithm(cls)
@@ -338,6 +341,7 @@ def cmd_Q(arg):
         chk('cnf1', p1, Implies(r2, r3))
         chk('cnf2', p2, Implies(r3, r2))
         cls, p1, p2 = TAUT.to_clauses(c)
+        LAST['clauses'] = len(cls)
         r4 = T.clause_conjunctionto_pattern(cls)
         chk('cls1', p1, Implies(r3, r4))
         chk('cls2', p2, Implies(r4, r3))
@@ -416,6 +420,8 @@ def main():
         if not line:
             print('')
             continue
+        LAST['clauses'] = None
+        TAUT.trace = None
         try:
             signal.alarm(TIMEOUT)
             try:
@@ -425,7 +431,9 @@ def main():
         except Timeout:
             out = 'TIMEOUT'
         except RecursionError:
-            out = 'ERR RecursionError'
+            # where: number of clauses of the conjunction and what the saturation loop had answered
+            loop = '?' if TAUT.trace is None else {True: 'T', False: 'F', None: '?'}[TAUT.trace[2]]
+            out = f'ERR RecursionError clauses={LAST["clauses"]} loop={loop}'
         except Exception as e:  # noqa: BLE001  (one bad case must not kill the whole chunk)
             out = 'ERR ' + type(e).__name__
         print(out)
